@@ -128,8 +128,21 @@ def flatten_cases(draw, tier):
     return {"mode": "flatten", "tree": tree, "leaf": g.integer(0, 50)}
 
 
+@st.composite
+def product_cases(draw, tier):
+    """generic trees of every kind (Identity-biased, since Identity hands its operand back) with operands of exactly the
+    promoted dtype, so that no cast protects the caller's arrays"""
+    g = gen.TreeGen(draw, avoid=AVOID)
+    g.bias_sq = ["eye", "eye", "perm", "smul"]
+    r, c = TP.target_shape(g, maxn=6)
+    tree = g.op(r, c, g.pick([1, 1, 2, 2, 3]))
+    dt = IR.DTN[IR.denote(tree).dtype]
+    return {"mode": "products", "tree": tree, "x": g.operand(c, dtypes=(dt, ), ranks=(1, )), "X": g.operand(c, dtypes=(dt, ), ranks=(2, )),
+            "xl": g.left_operand(r, dtypes=(dt, ), ranks=(1, 2))}
+
+
 def strategy(tier):
-    return st.one_of(history_cases(tier), history_cases(tier), flatten_cases(tier))
+    return st.one_of(history_cases(tier), history_cases(tier), flatten_cases(tier), product_cases(tier))
 
 
 class Ctx:
@@ -446,8 +459,50 @@ def check_flatten(case, out):
                 out.fail("substitute", site, "original_changed", "A changed after substituting a leaf in its unflattened copy")
 
 
+def check_products(case, out):
+    tree = case["tree"]
+    R = IR.denote(tree)
+    out.label(*TP.tree_labels(tree, R))
+    try:
+        A = IR.build(tree)
+    except Exception as e:
+        out.notes.append("build:" + oracle.exc_man(e))
+        return
+    ops = {"x": IR.dec(case["x"]), "X": IR.dec(case["X"]), "xl": IR.dec(case["xl"])}
+    snaps = {k: snap(v) for k, v in ops.items()}
+    payload = [(p, a, snap(a)) for p, a in reachable_arrays(A)]
+    out.nontrivial = IR.size(tree) >= 2
+    site = oracle.site_of(tree)
+    calls = [("matvec", lambda: A @ ops["x"], "x"), ("matmat", lambda: A @ ops["X"], "X"), ("left", lambda: ops["xl"] @ A, "xl"),
+             ("to_dense", lambda: A.to_dense(), None)]
+    for name, fn, key in calls:
+        try:
+            r1 = np.array(fn())  # copy: the result may alias the operand
+        except Exception as e:
+            out.notes.append(f"{name}:{type(e).__name__}")
+            continue
+        for k, v in ops.items():
+            if snap(v) != snaps[k]:
+                out.fail("caller_array_mutated", site, name, f"{name} changed the caller's operand '{k}'")
+                return
+        for p_, a, sn in payload:
+            if snap(a) != sn:
+                out.fail("operator_payload_mutated", site, name, f"{name} changed {p_}")
+                return
+        try:
+            r2 = np.array(fn())
+        except Exception as e:
+            out.fail("repeat", site, name + ":raises_on_repeat", f"{type(e).__name__}: {e}")
+            return
+        if r1.shape != r2.shape or not np.array_equal(r1, r2, equal_nan=True):
+            out.fail("repeat", site, name + ":differs", f"repeating {name} gave a different result")
+            return
+
+
 def check(case, out):
     out.label("mode:" + case["mode"])
+    if case["mode"] == "products":
+        return check_products(case, out)
     if case["mode"] == "history":
         check_history(case, out)
     elif case["mode"] == "flatten":
